@@ -1,15 +1,21 @@
 (* C12 — the iHam orthoXML export describes the same HOG. *)
 From Coq Require Import List Arith Bool String Permutation.
-From PyHam Require Import Tax Ortho Loader Mapper Nav Export Filter.
-From PyHam.proofs Require Import ExportFacts.
+From PyHam Require Import Tax Ortho Loader Mapper Preds Nav Export Filter Hist Spell.
+From PyHam.proofs Require Import ExplicitFacts ExportFacts SpellFacts RoundTripFacts.
 Import ListNotations.
 
-(* PARTIAL (see DESIGN.md, C12).  Proved for every loaded HOG (any shape, no alignment hypothesis):
-   the exported groups reference exactly the HOG's member genes, each once, and the exported species
-   blocks declare exactly those genes.  The round trip (re-loading reproduces members, taxa and
-   duplication grouping) is checked on the implementation by really re-loading every export, and the
-   exporter model (elision rules of findings F5/F11 included) is tied to the code by correspondence;
-   the round trip is not proved. *)
+(* Proved for every loaded HOG (any shape, no alignment hypothesis): the exported groups reference exactly
+   the HOG's member genes, each once, and the exported species blocks declare exactly those genes
+   (c12_references, c12_declarations).
+   The round trip, for every aligned HOG (wf_node, property C02) over a tree whose node names are pairwise
+   different: the groups the exporter writes (elision rules of findings F5/F11 included) are a permitted
+   spelling (Spell.v) of the history read off the HOG (c12_export_is_a_spelling), that history is well formed
+   and is matched by the HOG itself; hence (C03) evaluating the exported group again - in any loader state,
+   with any gene table that places the member genes at their species - yields a HOG that matches the same
+   history: same members, same taxon for every sub-HOG, same duplication grouping (c12_roundtrip).
+   Not proved: the species section of the exported document is only shown to declare the right genes, the
+   whole-document re-load (species blocks resolved by name) and the iHam page assembly are checked on the
+   implementation, which really re-loads every export. *)
 Theorem c12_references : forall t h ce, Permutation (flat_map refs_of (export t ce h)) (genes_of h).
 Proof. intros t h ce. exact (export_refs t h ce). Qed.
 Print Assumptions c12_references.
@@ -18,6 +24,27 @@ Theorem c12_declarations : forall t protid h,
   Permutation (flat_map (fun sp => map gd_id (sp_genes sp)) (export_species t protid h)) (genes_of h).
 Proof. exact export_declared. Qed.
 Print Assumptions c12_declarations.
+
+Theorem c12_export_is_a_spelling : forall t o p m ks,
+  names_inj t -> wf_node t (HHog o p m ks) = true ->
+  exists it, export_groups t (HHog o p m ks) = [it] /\ spells_top t (hist_of (HHog o p m ks)) it.
+Proof. exact export_spells_top. Qed.
+Print Assumptions c12_export_is_a_spelling.
+
+Theorem c12_history_well_formed : forall t genes x,
+  wf_node t x = true -> (forall g p, In (HGene g p) (all_of x) -> find_gene g genes = Some p) ->
+  WFh t genes (hist_of x) /\ matches (hist_of x) x.
+Proof. intros t genes x Hwf Hg. split; [apply WFh_hist_of; assumption|apply (matches_hist_of t); assumption]. Qed.
+Print Assumptions c12_history_well_formed.
+
+Theorem c12_roundtrip : forall t genes o p m ks s,
+  names_inj t -> wf_node t (HHog o p m ks) = true ->
+  (forall g q, In (HGene g q) (all_of (HHog o p m ks)) -> find_gene g genes = Some q) -> dups_dom s ->
+  let x := HHog o p m ks in
+  exists it i x' s', export_groups t x = [it] /\ eval_top t genes it s = Ok ((i, x'), s') /\
+    matches (hist_of x) x /\ matches (hist_of x) x' /\ htax x' = htax x /\ wf_node t x' = true.
+Proof. exact export_roundtrip. Qed.
+Print Assumptions c12_roundtrip.
 
 Local Open Scope string_scope.
 Definition m0 : hmeta := {| m_id := Some "f"; m_og := None; m_props := []; m_scores := []; m_synth := false |}.
@@ -35,3 +62,14 @@ Example c12_nonvacuous :
                IOG (Some "f") None [IProp "TaxRange" "E"; IGene "h2" None; IGene "p2" None]];
      IGene "c1" None]].
 Proof. vm_compute. reflexivity. Qed.
+
+(* the round trip on the example: the exported group, evaluated again, gives a HOG of the same shape *)
+Definition genes12 : list (string * taxon) := [("h1", [0; 0; 1]); ("h2", [0; 0; 1]); ("p2", [1; 0; 1]); ("c1", [1; 1])].
+Example c12_roundtrip_nonvacuous :
+  wf_node tr fam = true /\
+  match mapM (eval_top tr genes12) (export_groups tr fam) init_state with
+  | Ok (tops, _) => map (fun top => (htax (snd top), wf_node tr (snd top), List.length (hogs_of (snd top)), genes_of (snd top))) tops
+                    = [([1], true, 3, ["c1"; "h1"; "h2"; "p2"])]
+  | Err _ => False
+  end.
+Proof. vm_compute. split; reflexivity. Qed.
